@@ -6,6 +6,8 @@ import json, os, re, subprocess, sys, tempfile, shutil, glob, concurrent.futures
 HERE = os.path.dirname(os.path.dirname(os.path.abspath(__file__)))
 ENV = dict(os.environ, GOFLAGS="-mod=mod", GOPROXY="off", GOSUMDB="off", GOTOOLCHAIN="local"); ENV.pop("GOWORK", None)
 props = [c["property_id"] for c in json.load(open(os.path.join(HERE, "MANIFEST.json")))["checks"]]
+if os.environ.get("PROPS"):  # e.g. PROPS=C03,C20 after a rule change in those properties only
+    props = os.environ["PROPS"].split(",")
 def run(patch):
     d = tempfile.mkdtemp(prefix="slockref.")
     try:
